@@ -29,6 +29,21 @@ class C06(Prop):
 
     def generate(self, tier, rng):
         N = 1200 if tier == "quick" else 20000
+        for k in range(80 if tier == "quick" else 1500):
+            # quantile / expectile scores (the library's own isotonic regression) on data in a small unit: which blocks are pooled
+            # must not depend on an absolute or a loose relative tolerance
+            cfg = rng.choice([{"kind": "pinball", "h": 1.0, "level": rng.choice([0.5, 0.25, 0.75])},
+                              {"kind": "hes", "h": 2.0, "level": rng.choice([0.25, 0.75])},
+                              {"kind": "hqs", "h": 1.0, "level": 0.5}])
+            cfg.update(elem_f=None, eta=0.0)
+            n = rng.randint(3, 9)
+            if dc.rank_divergent(cfg, n):
+                continue
+            u = rng.choice([2.0**-30, 2.0**-40, 2.0**-20])
+            ys = [rng.randint(0, 12) * u for _ in range(n)]
+            cols = [sorted(rng.randint(1, 12) * u for _ in range(n))] if rng.random() < 0.5 else [[rng.randint(1, 12) * u for _ in range(n)]]
+            yield {"stream": "data", **cfg, "y": ys, "cols": cols, "w": None if cfg["kind"] != "hes" or rng.random() < 0.5 else [float(rng.randint(1, 3)) for _ in range(n)],
+                   "colnames": None}
         for k in range(N):
             cfg = dc.gen_config(rng)
             n = rng.choice([1, 2, 3, 4, 5, 6, 8, 12]) if rng.random() < 0.9 else rng.randint(13, 40)
